@@ -110,7 +110,58 @@ class RecordNext(Contract):
                 ('at-end=>record-start-kept', Implies(Not(moved), eq(a['record_start'], self.start0)))]
 
 
-CONTRACTS = [Asc2IntC(), Int2AscC(), WriteLine('ifif', 4), WriteLine('iiii', 4), WriteLine('10i', 10), RecordNext()]
+class OpenRecord(Contract):
+    """OpenRecordFile(rf) for a RecordFile whose cursor is ANYWHERE (it has been stepped, or is shared with an earlier reader):
+    the same object comes back positioned on the first record -- record_start = 0, the cursor right behind the leading marker
+    of record 0 -- so that the reader that follows parses the header and not whatever record the cursor was left on"""
+    prop = 'C09'
+    target = FU + '::OpenRecordFile'
+    name = 'OpenRecordFile[existing RecordFile]'
+
+    def inputs(self, ctx, I):
+        rf, f = rf_obj(ctx, I)
+        self.rf, self.f = rf, f
+        return dict(rf=rf)
+
+    def requires(self, inp):
+        a = inp['rf'].attrs
+        return And(ge(a['record_start'], 0), ge(a['record_size'], 0), ge(a['length'], 4), ge(self.f.ghost['pos'], 0), le(self.f.ghost['pos'], a['length']))
+
+    def ensures(self, inp, res, I):
+        a = self.rf.attrs
+        return [('returns the RecordFile it was given', res is self.rf),
+                ('positioned on the first record', eq(a['record_start'], 0)),
+                ('cursor right behind the leading marker of record 0', eq(self.f.ghost['pos'], 4))]
+
+    def concretize_without_model(self, inp):
+        return {}
+
+    def concretize(self, model, inp):
+        return {}
+
+    def replay(self, c):
+        """a real two-record file, a RecordFile stepped to its second record, then OpenRecordFile"""
+        import struct, tempfile, shutil
+        import_real()
+        from PseudoNetCDF.camxfiles.FortranFileUtil import RecordFile, OpenRecordFile
+        d = tempfile.mkdtemp(prefix='verif_c09_')
+        try:
+            p_ = os.path.join(d, 'two.rec')
+            with open(p_, 'wb') as fh:
+                for payload in (struct.pack('>3i', 1, 2, 3), struct.pack('>5i', 4, 5, 6, 7, 8)):
+                    fh.write(struct.pack('>i', len(payload)) + payload + struct.pack('>i', len(payload)))
+            rf = RecordFile(p_)
+            rf.next()
+            moved = rf.record_start
+            r2 = OpenRecordFile(rf)
+            ok = r2 is rf and rf.record_start == 0 and rf.record_size == 12 and rf.infile.tell() == 4
+            rf.infile.close()
+            return ok, dict(record_start_before=moved, record_start_after=rf.record_start, record_size_after=rf.record_size)
+        finally:
+            shutil.rmtree(d, ignore_errors=True)
+
+
+CONTRACTS = [Asc2IntC(), Int2AscC(), WriteLine('ifif', 4), WriteLine('iiii', 4), WriteLine('10i', 10), RecordNext(), OpenRecord()]
 
 
 def bounded(tier, seed):
